@@ -242,10 +242,14 @@ class Exec(EvalMixin, CallMixin):
         saved_frames = st.frames
         st.frames = []
         self.in_ghost = getattr(self, "in_ghost", 0) + 1
+        st.ghost_mode = 1
         try:
             res = self.block(tree.body, st)
         finally:
             self.in_ghost -= 1
+            st.ghost_mode = 0
+            for s_, _ in res:
+                s_.ghost_mode = 0
         if len(res) != 1 or res[0][0] is not st and False:
             pass
         if len(res) != 1:
@@ -397,6 +401,9 @@ class Exec(EvalMixin, CallMixin):
     def assign(self, tgt, v, st, node):
         line = node.lineno
         if isinstance(tgt, ast.Name):
+            if getattr(self, "in_ghost", 0) and tgt.id.startswith("g_") and v.k.head in ("list", "set", "dict") \
+                    and "g" not in v.k[1:]:
+                v = SV(v.t, K(*(tuple(v.k) + ("g",))), v.h)
             dk = self.decl_kinds.get(tgt.id)
             if dk is not None and dk != ANY and v.k != NONE:
                 v = SV(v.t, dk, v.h)
